@@ -276,7 +276,7 @@ func runC12(c *core.Ctx) {
 				c.OK("R4", name, "", "no Close")
 				return
 			}
-			fn := p.SSA.FuncValue(sel.Obj().(*types.Func))
+			fn := p.FuncOf(sel.Obj().(*types.Func))
 			if fn == nil || fn.Blocks == nil {
 				c.OK("R4", name, "", "Close promoted from the connection: does not touch the buffered writer")
 				return
